@@ -148,7 +148,7 @@ def start_recipe(r: random.Random, pool="default", xform_rate=0.0):
     if rec["form"] == "stream":
         rec["pos"] = r.choice([0, 0, 3, 10 ** 7])
     if r.random() < xform_rate:
-        rec["xform"] = [{"kind": "rename_slides", "mode": r.choice(["reverse", "rotate", "gaps", "shuffle", "lastfits", "firstbig"]),
+        rec["xform"] = [{"kind": "rename_slides", "mode": r.choice(["reverse", "rotate", "gaps", "shuffle", "lastfits", "firstbig", "midnext", "midnext2"]),
                          "seed": r.randint(0, 99)}]
     if r.random() < xform_rate:
         # another producer's numbering of the other part families (holes below the maximum, number 1 free, sparse)
